@@ -76,6 +76,10 @@ func resolverOf(fn *ssa.Function) *resolverInfo {
 	resolverCache[fn] = nil
 	res := fn.Signature.Results()
 	if res.Len() < 2 {
+		if ri := entryResolverOf(fn); ri != nil {
+			resolverCache[fn] = ri
+			return ri
+		}
 		return nil
 	}
 	// the returns, a return of phis split into one virtual return per incoming edge
@@ -155,6 +159,111 @@ func resolverOf(fn *ssa.Function) *resolverInfo {
 	return nil
 }
 
+// entryResolverOf: fn has one result and every return hands out the entry of one plain lookup `m[key]` in a map whose entries can
+// be nil (pointers, interfaces, slices, maps, functions): "not there" is the nil entry, and the call sites ask `entry != nil` where a
+// comma-ok resolver's call sites ask `found`. okIdx is -1 for such a resolver. (A map that holds a nil entry under a declared name
+// answers "not there" for it - the stricter reading: what the call site goes on with under its found edge is a non-nil entry.)
+func entryResolverOf(fn *ssa.Function) *resolverInfo {
+	if fn.Signature.Results().Len() != 1 {
+		return nil
+	}
+	var lk *ssa.Lookup
+	for _, b := range fn.Blocks {
+		r, ok := b.Instrs[len(b.Instrs)-1].(*ssa.Return)
+		if !ok {
+			continue
+		}
+		if len(r.Results) != 1 {
+			return nil
+		}
+		vals := []ssa.Value{r.Results[0]}
+		if p, ok := r.Results[0].(*ssa.Phi); ok && p.Block() == b {
+			vals = p.Edges
+		}
+		for _, v := range vals {
+			if isNilConst(v) {
+				continue // an explicit "not there"
+			}
+			l, ok := stripIdentity(v).(*ssa.Lookup)
+			if !ok || l.CommaOk || (lk != nil && l != lk) {
+				return nil
+			}
+			mt, isMap := l.X.Type().Underlying().(*types.Map)
+			if !isMap || !nilableType(mt.Elem()) {
+				return nil
+			}
+			lk = l
+		}
+	}
+	if lk == nil {
+		return nil
+	}
+	return &resolverInfo{fn: fn, lookup: lk, vIdx: 0, okIdx: -1}
+}
+
+func nilableType(t types.Type) bool {
+	switch t.Underlying().(type) {
+	case *types.Pointer, *types.Interface, *types.Slice, *types.Map, *types.Signature, *types.Chan:
+		return true
+	}
+	return false
+}
+
+// foundBranches: the branches of call's function on "the resolver found its key": on the found-result of a comma-ok resolver, on
+// `entry != nil` / `entry == nil` for an entry resolver.
+func (ri *resolverInfo) foundBranches(call ssa.CallInstruction) []resultBranch {
+	if ri.okIdx >= 0 {
+		return resultBranches(call, ri.okIdx)
+	}
+	cv, ok := call.(*ssa.Call)
+	if !ok || cv.Parent() == nil {
+		return nil
+	}
+	var out []resultBranch
+	for _, b := range cv.Parent().Blocks {
+		cond := branchCond(b)
+		if cond == nil {
+			continue
+		}
+		neg := false
+		c := cond
+		for {
+			if u, ok := c.(*ssa.UnOp); ok && u.Op == token.NOT {
+				neg = !neg
+				c = u.X
+				continue
+			}
+			break
+		}
+		bo, ok := c.(*ssa.BinOp)
+		if !ok || (bo.Op != token.NEQ && bo.Op != token.EQL) {
+			continue
+		}
+		var other ssa.Value
+		switch {
+		case stripIdentity(bo.X) == ssa.Value(cv):
+			other = bo.Y
+		case stripIdentity(bo.Y) == ssa.Value(cv):
+			other = bo.X
+		default:
+			continue
+		}
+		if !isNilConst(other) {
+			continue
+		}
+		foundOnTrue := bo.Op == token.NEQ
+		if neg {
+			foundOnTrue = !foundOnTrue
+		}
+		s := 1
+		if foundOnTrue {
+			s = 0
+		}
+		out = append(out, resultBranch{b, s})
+	}
+	return out
+}
+
 // soleCallee: the one function a call enters (static callee, method behind a method value, closure), nil for interface calls and
 // for function values with several possible targets.
 func soleCallee(c ssa.CallInstruction) *ssa.Function {
@@ -231,7 +340,7 @@ func callMemberships(fn *ssa.Function) []callMembership {
 		if ri == nil {
 			return
 		}
-		for _, rb := range resultBranches(c, ri.okIdx) {
+		for _, rb := range ri.foundBranches(c) {
 			out = append(out, callMembership{c, ri, rb.branch, rb.trueSucc})
 		}
 	})
@@ -242,6 +351,22 @@ func callMemberships(fn *ssa.Function) []callMembership {
 // is in fn and b is dominated by the key-found edge of its membership test, or the lookup is in a resolver that fn calls and b is
 // dominated by the true edge of a branch on the resolver's found-result. Returns the lookup (of fn or of the resolver), else nil.
 func foundLookupValue(fn *ssa.Function, v ssa.Value, b *ssa.BasicBlock) *ssa.Lookup {
+	switch x := stripIdentity(v).(type) {
+	case *ssa.Call:
+		// the entry an entry resolver handed out, under the `entry != nil` edge
+		for _, cm := range callMemberships(fn) {
+			if cm.call == x && cm.info.okIdx < 0 && edgeDominates(cm.branch, cm.presentSucc, b) {
+				return cm.info.lookup
+			}
+		}
+		return nil
+	case *ssa.Lookup:
+		// the entry of a plain lookup, under the `m[k] != nil` edge
+		if !x.CommaOk && presentEdgeDominates(fn, x, b) {
+			return x
+		}
+		return nil
+	}
 	ex, ok := stripIdentity(v).(*ssa.Extract)
 	if !ok {
 		return nil
@@ -256,7 +381,7 @@ func foundLookupValue(fn *ssa.Function, v ssa.Value, b *ssa.BasicBlock) *ssa.Loo
 		}
 	case *ssa.Call:
 		for _, cm := range callMemberships(fn) {
-			if cm.call == t && ex.Index == cm.info.vIdx && edgeDominates(cm.branch, cm.presentSucc, b) {
+			if cm.call == t && cm.info.okIdx >= 0 && ex.Index == cm.info.vIdx && edgeDominates(cm.branch, cm.presentSucc, b) {
 				return cm.info.lookup
 			}
 		}
@@ -348,7 +473,7 @@ func missDiagnosed(lk *ssa.Lookup, kb keyBinding) (tested, checked bool) {
 	}
 	if kb.site != nil {
 		if ri := resolverOf(fn); ri != nil && ri.lookup == lk {
-			for _, rb := range resultBranches(kb.site, ri.okIdx) {
+			for _, rb := range ri.foundBranches(kb.site) {
 				tested = true
 				if edgeReachesDiag(rb.branch, 1-rb.trueSucc) {
 					checked = true
